@@ -187,17 +187,18 @@ func ztNewWorld(faultKinds []string) *ztWorld {
 // ---- C03 -------------------------------------------------------------------------------
 
 type z3Scenario struct {
-	Name      string   `json:"name"`
-	Layers    []int    `json:"layers"`
-	Config    int      `json:"config"`
-	Faults    []string `json:"faults,omitempty"`
-	Challenge []string `json:"challenge,omitempty"`
-	Cancel    bool     `json:"cancel,omitempty"`
-	Prior     bool     `json:"prior,omitempty"`
-	Dup       bool     `json:"dup,omitempty"`    // the manifest names the first layer's digest twice (same bytes under two media types)
-	Second    bool     `json:"second,omitempty"` // a second concurrent pull of a model sharing the layer
-	Faulty    int      `json:"faulty_attempts"`
-	Cap       int      `json:"quick_total_cap,omitempty"` // quick tier: total deviations for this scenario (0: the default)
+	Name       string   `json:"name"`
+	Layers     []int    `json:"layers"`
+	Config     int      `json:"config"`
+	Faults     []string `json:"faults,omitempty"`
+	Challenge  []string `json:"challenge,omitempty"`
+	Cancel     bool     `json:"cancel,omitempty"`
+	CancelLate bool     `json:"cancel_late,omitempty"` // the client goes away exactly before some request or body piece (class cancel)
+	Prior      bool     `json:"prior,omitempty"`
+	Dup        bool     `json:"dup,omitempty"`    // the manifest names the first layer's digest twice (same bytes under two media types)
+	Second     bool     `json:"second,omitempty"` // a second concurrent pull of a model sharing the layer
+	Faulty     int      `json:"faulty_attempts"`
+	Cap        int      `json:"quick_total_cap,omitempty"` // quick tier: total deviations for this scenario (0: the default)
 }
 
 func z3Err(err error) string {
@@ -258,12 +259,26 @@ func z3Body(sc z3Scenario) func() {
 				// DESIGN section 10, outside the C03 text)
 				ctx, cancel = mcrt.WithTimeout(gocontext.Background(), 5*gotime.Minute)
 			}
+			srv.OnNetPoint = nil
 			if sc.Cancel && !clean {
+				// the client goes away at whatever scheduling point this thread gets to run (early by default,
+				// elsewhere at the price of schedule deviations)
 				mcrt.GoNamed(fmt.Sprintf("cancel%d", attempt), func() {
 					mcrt.Yield("client goes away")
 					mcrt.Observe("cancel")
 					cancel()
 				})
+			}
+			if sc.CancelLate && !clean {
+				// ... or exactly before a request or a piece of a body, however late in the transfer (one deviation of class cancel)
+				gone := false
+				srv.OnNetPoint = func(label string) {
+					if !gone && mcrt.Choose(mcrt.Cancel, "client goes away before "+label, "no", "yes") == 1 {
+						gone = true
+						mcrt.Observe("cancel before %s", label)
+						cancel()
+					}
+				}
 			}
 			var err2 error
 			var done2 mcrt.WaitGroup
@@ -356,6 +371,8 @@ func z3Scenarios(thorough bool) []z3Scenario {
 		{Name: "replace-tag", Layers: []int{10, 3}, Prior: true, Faults: []string{"500", "truncate", "flip"}, Faulty: 1, Cap: 1},
 		{Name: "shared-layer", Layers: []int{10}, Second: true, Faults: []string{"500", "truncate"}, Faulty: 1, Cap: 1},
 		{Name: "empty-layer", Layers: []int{0, 3}, Faults: []string{"500"}, Faulty: 1},
+		{Name: "corrupt-then-cancel", Layers: []int{3}, Config: 2, Faults: []string{"500", "flip"}, CancelLate: true, Faulty: 1},
+		{Name: "three-parts-cancel-late", Layers: []int{10}, Config: 2, CancelLate: true, Faulty: 1},
 		{Name: "same-digest-twice", Layers: []int{3, 5}, Dup: true, Faults: []string{"500", "truncate", "flip"}, Faulty: 1},
 		{Name: "malformed-manifest", Cap: 1, Layers: []int{3, 5}, Config: 2, Faults: []string{"badjson", "manifest-empty-digest", "manifest-short-digest", "manifest-nohex-digest", "manifest-null-layer", "manifest-dup-layer"}, Faulty: 1},
 	}
@@ -569,6 +586,7 @@ func ZZVerifC03() {
 	bounds[mcrt.Switch] = 1
 	bounds[mcrt.Time] = 1
 	bounds[mcrt.Order] = 1
+	bounds[mcrt.Cancel] = 1
 	total := 2
 	budget := 100 * gotime.Second
 	if thorough {
